@@ -107,7 +107,8 @@ def gen_hit(rng, k):
     probes = []
     for _ in range(rng.choice([3, 4, 5, 6])):
         ph = []
-        method = "HEAD" if rng.random() < 0.15 else "GET"
+        # (a HEAD that is forwarded as a miss makes squid drop the cached GET object; keep non-200 entities GET-only)
+        method = "HEAD" if (status == 200 and rng.random() < 0.15) else "GET"
         ranged = rng.random() < 0.15
         which = rng.choice(["inm", "inm", "inm", "im", "im", "ims", "ims", "inm+ims", "inm+ims", "im+inm", "im+ims", "all", "none"])
         if "im" in which.split("+") or which == "all":
